@@ -90,6 +90,8 @@ pub fn ser_err(e: &Amf0SerializationError) -> &'static str {
         Amf0SerializationError::NormalStringTooLong => "TooLong",
         Amf0SerializationError::EmptyObjectPropertyName => "EmptyName",
         Amf0SerializationError::BufferWriteError(_) => "Write",
+        #[allow(unreachable_patterns)]
+        _ => "Other",      // a variant this harness does not know: an observation, not a build failure
     }
 }
 
@@ -100,6 +102,8 @@ pub fn de_err(e: &Amf0DeserializationError) -> String {
         Amf0DeserializationError::UnexpectedEof => "Eof".into(),
         Amf0DeserializationError::BufferReadError(_) => "Read".into(),
         Amf0DeserializationError::StringParseError(_) => "Utf8".into(),
+        #[allow(unreachable_patterns)]
+        _ => "Other".into(),
     }
 }
 
